@@ -938,3 +938,66 @@ func VH_C01_line() {
 	}
 	zzverif.Reach("C01/line")
 }
+
+// ---- derivation steps shared by C01/C09 (derived lines) and C05 (differential trees) ----
+
+type vTagHook struct{ tag string }
+
+func (h vTagHook) Run(e *Event, l Level, msg string) { e.Str("hook", h.tag) }
+
+// vDerive applies derivation op k (with fixed, distinguishable arguments).
+func vDerive(l Logger, k int, tag string) Logger {
+	switch k {
+	case 0:
+		return l.With().Str("f"+tag, tag).Logger()
+	case 1:
+		return l.Hook(vTagHook{"h" + tag})
+	case 2:
+		return l.Level(DebugLevel)
+	case 3:
+		return l.Sample(nil)
+	case 4:
+		c := l.With().Logger()
+		c.UpdateContext(func(c Context) Context { return c.Str("u"+tag, tag) })
+		return c
+	case 5:
+		return l.With().Int("n"+tag, 7).Bool("b"+tag, true).Logger()
+	}
+	return l
+}
+
+func vEmit(l Logger) []byte {
+	w := &vWriter{}
+	o := l.Output(w)
+	o.Info().Str("own", "x").Msg("m")
+	if len(w.calls) != 1 {
+		return nil
+	}
+	return w.calls[0].buf
+}
+
+const vOps = 6
+
+// Lines of DERIVED loggers: a small tree of loggers (each derivation step of C05's vDerive) whose
+// nodes log in an order different from their creation; every line written must be one
+// well-formed event (JSON object on one line / one CBOR map) (two loggers sharing a context buffer corrupt each other's lines).
+func VH_C01_derived_lines() {
+	op1, op2, op3 := zzverif.Choice(vOps), zzverif.Choice(vOps), zzverif.Choice(vOps)
+	root := New(&vWriter{}).With().Str("root", "r").Logger()
+	a := vDerive(root, op1, "a")
+	b := vDerive(a, op2, "b")
+	c := vDerive(a, op3, "cc") // a field of another length than b's
+	var lines [][]byte
+	switch zzverif.Choice(3) {
+	case 0:
+		lines = [][]byte{vEmit(root), vEmit(a), vEmit(b), vEmit(c)}
+	case 1:
+		lines = [][]byte{vEmit(c), vEmit(b), vEmit(a), vEmit(root)}
+	case 2:
+		lines = [][]byte{vEmit(b), vEmit(root), vEmit(c), vEmit(a), vEmit(b)}
+	}
+	for _, ln := range lines {
+		zzverif.Assert(ln != nil && vEventOK(ln), "derived loggers: every logger of a derivation tree writes one well-formed event per call")
+	}
+	zzverif.Reach("C01/derived-lines")
+}
